@@ -297,7 +297,7 @@ fn warm_up<S: Scenario>(round_deadline: Duration) {
                 let _ = debian_control::lossless::relations::Relations::from_str("a (>= 1:1.0) [amd64] <!nocheck>, b | c").map(|r| r.to_string());
             });
             for i in 0..40u64 {
-                let env = make_envelope::<S>(0x5741_524d, Tier::Quick, i);
+                let env = make_envelope::<S>(0x5741_524d, Tier::Quick, 1000 + i);
                 let _ = execute_here::<S>(&env.case);
             }
         });
@@ -452,11 +452,18 @@ fn minimise<S: Scenario>(env: Envelope<S::Case>, sig: &str, isolated: bool) -> (
             }
         }
     };
+    // a wall-clock bound as well: candidates of slow cases (large documents) cost seconds each
+    let started = Instant::now();
     'outer: loop {
-        if execs > budget {
+        if execs > budget || started.elapsed() > Duration::from_secs(240) {
             break;
         }
+        let cur_json = serde_json::to_string(&cur.case).unwrap_or_default();
         for cand in S::shrink(&cur.case) {
+            // a candidate identical to the current case is no progress (and would loop)
+            if serde_json::to_string(&cand).map(|j| j == cur_json).unwrap_or(false) {
+                continue;
+            }
             execs += 1;
             let e = Envelope { hash_seed: cur.hash_seed, case: cand };
             if let Some((s, d)) = try_one(&e) {
@@ -466,7 +473,7 @@ fn minimise<S: Scenario>(env: Envelope<S::Case>, sig: &str, isolated: bool) -> (
                     continue 'outer;
                 }
             }
-            if execs > budget {
+            if execs > budget || started.elapsed() > Duration::from_secs(240) {
                 break 'outer;
             }
         }
